@@ -43,7 +43,7 @@ def run(ctx):
         base = ctx.tlc("AccountJournal", cfg="AccountJournal_quick.cfg")
     else:
         base = ctx.tlc("AccountJournal", cfg="AccountJournal.cfg", coverage=True, timeout=1500)
-    require_actions(base, ["DoMut", "Snapshot", "Next", "Finalise", "Prepare"])  # TLC files the quantified Revert(i) under Next
+    require_actions(base, ["DoMut", "Snapshot", "Revert", "Finalise", "Prepare"])
     # 2. TLC-generated histories (model -> code)
     gens, hists = [], []
     if quick:
